@@ -89,6 +89,9 @@ static std::vector<CorpusEntry> make_corpus(bool with_big) {
     { MB b; b.Vn(8); b.hex({0, 1, 2, 3, 4, 7, 6, 5}); fin("hex", b); }
     { MB b; b.Vn(12); b.hex({0, 1, 2, 3, 4, 7, 6, 5}); b.hex({5, 6, 7, 4, 9, 8, 11, 10}); fin("2hexes", b); }
     { MB b; b.Vn(4); int h = b.HF({0, 1, 2}); b.C({h, h ^ 1}); b.HF({1, 0, 3}); fin("pillow-cell", b); }
+    { MB b; b.Vn(8); b.tet(0, 1, 2, 3); b.HF({4, 5, 6, 7}); fin("tet+free-quad", b); }
+    { MB b; b.Vn(11); b.hex({0, 1, 2, 3, 4, 7, 6, 5}); b.HF({8, 9, 10}); fin("hex+free-triangle", b); }
+    { MB b; b.Vn(7); b.tet(0, 1, 2, 3); b.HF({4, 5, 6}); b.E(0, 4); fin("tet+free-triangle+edge", b); }
     if (with_big) {
         // index-width boundaries: vertices 254..257 (edge chunk handle width), halfedges around 255/256 and 65535/65536
         for (int nv : {254, 255, 256, 257}) { MB b; b.Vn(nv); for (int i = 0; i + 1 < nv; i += 37) b.E(i, nv - 1 - i / 2); fin("verts" + std::to_string(nv), b, true); }
@@ -449,7 +452,22 @@ static void run_c07(Ctx &ctx, bool thorough, int part, int nparts, const std::st
                         labels.push_back("splice:" + std::to_string(fj) + ":" + std::to_string(a) + ":" + std::to_string(b));
                     }
                 }
-                for (auto &sm : semantic_mutants(fc.mesh)) { inputs.push_back(sm.second); labels.push_back(sm.first); }
+                for (auto &sm : semantic_mutants(fc.mesh)) {
+                    inputs.push_back(sm.second); labels.push_back(sm.first);
+                    // composition: a semantic mutant that the format description does not reject (e.g. a VERT chunk without coordinates,
+                    // a narrower but sufficient handle width) is a new valid shape of file, so the field-level mutations are applied to
+                    // the sub-headers (span, count, encodings, offset) of the chunks of the kind it changed
+                    Bytes sb(sm.second.begin(), sm.second.end());
+                    if (ref_decode(sb).cls == Dec::REJECT) continue;
+                    bool vert = sm.first.rfind("sem:vert", 0) == 0;
+                    int ent = vert ? 0 : sm.first[5] - '0';
+                    for (auto &c : walk_chunks(sb)) {
+                        if (vert ? c.type != "VERT" : (c.type != "TOPO" || c.hdr_end + 13 > sb.size() || sb[c.hdr_end + 12] != ent)) continue;
+                        size_t sub = vert ? 16 : 24, a = c.hdr_end, e = std::min(c.hdr_end + sub, c.end);
+                        for (size_t q = a; q < e; ++q) for (uint8_t v : BYTE_VALUES) if (v != sb[q]) { Mut m{0, q, v, 1}; inputs.push_back(apply_mut(sm.second, m)); labels.push_back("sem2:" + sm.first.substr(4) + ":" + mut_str(m)); }
+                        for (int w : {2, 4, 8}) for (size_t q = a; q + w <= e; q += w) for (uint64_t v : FIELD_VALUES) { if (w < 8 && (v >> (8 * w)) != 0) continue; Mut m{5, q, v, w}; inputs.push_back(apply_mut(sm.second, m)); labels.push_back("sem2:" + sm.first.substr(4) + ":" + mut_str(m)); }
+                    }
+                }
                 // short byte strings appended after each chunk
                 const char sym[] = {0x00, 0x01, (char)0xff, 'E', 'O', 0x08};
                 for (auto &c : cp) for (int x = 0; x < 6; ++x) { inputs.push_back(fc.bytes.substr(0, c.end) + std::string(1, sym[x]) + fc.bytes.substr(c.end)); labels.push_back("ins1@" + std::to_string(c.end) + ":" + std::to_string(x));
@@ -532,7 +550,19 @@ static void run_c18(Ctx &ctx, bool thorough, int part, int nparts, const std::st
                 ins.push_back({without.substr(0, at) + chunk + without.substr(at), "move#" + std::to_string(a) + "to" + std::to_string(b), -1, 0});
             }
         }
-        for (auto &sm : semantic_mutants(fc.mesh)) ins.push_back({sm.second, sm.first, -1, 0});
+        for (auto &sm : semantic_mutants(fc.mesh)) {
+            ins.push_back({sm.second, sm.first, -1, 0});
+            Bytes sb(sm.second.begin(), sm.second.end());
+            if (ref_decode(sb).cls == Dec::REJECT) continue;
+            bool vert = sm.first.rfind("sem:vert", 0) == 0;
+            int ent = vert ? 0 : sm.first[5] - '0';
+            for (auto &c : walk_chunks(sb)) {
+                if (vert ? c.type != "VERT" : (c.type != "TOPO" || c.hdr_end + 13 > sb.size() || sb[c.hdr_end + 12] != ent)) continue;
+                size_t sub = vert ? 16 : 24, a = c.hdr_end, e = std::min(c.hdr_end + sub, c.end);
+                for (size_t q = a; q < e; ++q) for (uint8_t v : BYTE_VALUES) if (v != sb[q]) { Mut m{0, q, v, 1}; ins.push_back({apply_mut(sm.second, m), "sem2:" + sm.first.substr(4) + ":" + mut_str(m), -1, 0}); }
+                for (int w : {2, 4, 8}) for (size_t q = a; q + w <= e; q += w) for (uint64_t v : FIELD_VALUES) { if (w < 8 && (v >> (8 * w)) != 0) continue; Mut m{5, q, v, w}; ins.push_back({apply_mut(sm.second, m), "sem2:" + sm.first.substr(4) + ":" + mut_str(m), -1, 0}); }
+            }
+        }
         // stream faults: input failing from byte k (every k), output failing from byte k
         for (size_t k = 0; k < fc.bytes.size(); ++k) ins.push_back({fc.bytes, "readfail@" + std::to_string(k), (long)k, 0});
         for (size_t k = 0; k < fc.bytes.size(); ++k) ins.push_back({"", "writefail@" + std::to_string(k), (long)k, 1});
